@@ -839,7 +839,8 @@ def gen_gp_spec(rng):
                 head=rng.choice(["ei", "lcb", "eipu", "cei"]), kappa=rng.uniform(0.3, 3.0),
                 expo=rng.choice([1.0, 0.5]), jitter=rng.choice([0.01, 0.1]),
                 x=[rng.uniform(0.05, 0.95) for _ in range(d)], normalize=rng.random() < 0.7,
-                explicit=rng.random() < 0.5, active_last=rng.random() < 0.5, active_last_arg=rng.random() < 0.5)
+                explicit=rng.random() < 0.5, active_last=rng.random() < 0.5, active_last_arg=rng.random() < 0.5,
+                refit=rng.random() < 0.5)
 
 
 def gp_observed(spec):
@@ -867,7 +868,18 @@ def build_gp_predictor(spec, metric, fn, seed_shift=0):
     gpm = default_gpmodel(state, random_seed=spec["seed"] + seed_shift, optimization_config=oc)
     est = GaussProcEmpiricalBayesEstimator(active_metric=metric, gpmodel=gpm, num_fantasy_samples=spec["nf"],
                                            normalize_targets=spec.get("normalize", True))
-    return est.fit_from_state(state, update_params=True)
+    pred = est.fit_from_state(state, update_params=True)
+    if spec.get("_want_estimator"):
+        def refit(seed_off):
+            # other data set (same space, same numbers of observed / pending points), SAME estimator object
+            rs2 = np.random.RandomState(spec["seed"] + seed_off)
+            X2 = [tuple(float(v) for v in rs2.uniform(size=d)) for _ in range(spec["n"])]
+            pend2 = [tuple(float(v) for v in rs2.uniform(size=d)) for _ in range(spec["pending"])] or None
+            Y2 = [{metric: float(fn(np.array(x)) + 2.0 * np.sin(5.0 * x[0]))} for x in X2]
+            st2 = create_tuning_job_state(hp_ranges=hp, cand_tuples=X2, metrics=Y2, pending_tuples=pend2)
+            return est.fit_from_state(st2, update_params=True)
+        return pred, refit
+    return pred
 
 
 def _gp_models(spec, M, seed_off=0, active_last=False):
@@ -884,6 +896,11 @@ def _gp_models(spec, M, seed_off=0, active_last=False):
         return ordered({INTERNAL_METRIC_NAME: act, "cost_metric": cost}, active_last)
     con = build_gp_predictor(sp, INTERNAL_CONSTRAINT_NAME, lambda x: float(x[0]) - 0.6, seed_shift=2)
     return ordered({INTERNAL_METRIC_NAME: act, INTERNAL_CONSTRAINT_NAME: con}, active_last)
+
+
+def _active_metric_name():
+    from syne_tune.optimizer.schedulers.searchers.bayesopt.datatypes.common import INTERNAL_METRIC_NAME
+    return INTERNAL_METRIC_NAME
 
 
 def _make_acq(spec, M, predictor):
@@ -992,6 +1009,19 @@ def run_gp_acq(ctx, specs):
                                   signature=dict(function="compute_acq", head=head, defect="ei_closed_form_relative",
                                                  tail=bool(umin < -6)))
             check_acq_gradient(ctx, acq, x, {}, head, case, "default predictor")
+            if spec.get("refit") and head in ("ei", "lcb"):
+                # fit A -> acquisition function on predictor A -> the SAME estimator is fit again on other data ->
+                # the fit-A acquisition function is asked again: whichever posterior it answers for, the gradient
+                # must be the derivative of the value it returns
+                w = np.random.RandomState(spec["seed"] + 7).normal(size=spec["d"])
+                predA, refit = build_gp_predictor(dict(spec, _want_estimator=True), _active_metric_name(),
+                                                  lambda t: 3.0 * float(np.sum(w * t)) + float(np.sum(t * t)))
+                acqA = _make_acq(spec, M, predA)
+                check_acq_gradient(ctx, acqA, x, {}, head, case, "fit A, before the estimator is fit again")
+                predB = refit(4321)
+                ctx.h("gp_acq_refit", head)
+                check_acq_gradient(ctx, acqA, x, {}, head, case, "fit-A acquisition function after the estimator was fit on other data")
+                check_acq_gradient(ctx, _make_acq(spec, M, predB), x, {}, head, case, "fit B")
             if spec.get("explicit"):
                 # the documented optional argument: evaluate the SAME acquisition object on another fitted
                 # surrogate (other data, same number of fantasies)
@@ -1506,6 +1536,88 @@ def run_fit_objective(ctx, specs):
                                   case=case, signature=sg)
 
 
+def gen_fit_mf_spec(rng, k=None):
+    return dict(seed=rng.randrange(10 ** 6), d=rng.choice([1, 2, 3]), ard=rng.random() < 0.5,
+                model=["independent", "hypertune"][k % 2] if k is not None else rng.choice(["independent", "hypertune"]),
+                counts=[rng.randint(3, 8), rng.randint(2, 6), rng.randint(2, 4)])
+
+
+def run_fit_multifidelity(ctx, specs):
+    """scipy fitting objective of the marginal likelihoods with one GP per rung level (kernel passed to the posterior
+    states as a tuple (kernel, covariance_scale_r)): IndependentGPPerResourceModel and HyperTuneIndependentGPModel"""
+    from syne_tune.optimizer.schedulers.searchers.bayesopt.gpautograd.kernel import Matern52
+    from syne_tune.optimizer.schedulers.searchers.bayesopt.gpautograd.mean import ScalarMeanFunction
+    from syne_tune.optimizer.schedulers.searchers.bayesopt.gpautograd.independent.gpind_model import IndependentGPPerResourceModel
+    from syne_tune.optimizer.schedulers.searchers.bayesopt.gpautograd.hypertune.gp_model import (
+        HyperTuneIndependentGPModel, HyperTuneDistributionArguments)
+    from syne_tune.optimizer.schedulers.searchers.bayesopt.gpautograd.hypertune.utils import ExtendFeaturesByResourceMixin
+    from syne_tune.optimizer.schedulers.searchers.bayesopt.gpautograd.optimization_utils import (
+        create_lbfgs_arguments, ParamVecDictConverter)
+    levels, rrange = [1, 3, 9], (1, 9)
+    for spec in specs:
+        case = dict(kind="fit_mf", spec=spec)
+        rs = np.random.RandomState(spec["seed"])
+        d = spec["d"]
+        with warnings.catch_warnings():
+            warnings.simplefilter("ignore")
+            fparts, tparts = [], []
+            for r, cnt in zip(levels, spec["counts"]):
+                xr = rs.uniform(size=(cnt, d))
+                fparts.append(ExtendFeaturesByResourceMixin(r, rrange).extend_features_by_resource(xr))
+                tparts.append(np.sin(4.0 * xr[:, :1]) + np.sum((xr - 0.3) ** 2, axis=1, keepdims=True) + 1.0 / r
+                              + 0.05 * rs.normal(size=(cnt, 1)))
+            data = {"features": np.vstack(fparts), "targets": np.vstack(tparts)}
+            kw = dict(kernel=Matern52(d, ARD=spec["ard"], has_covariance_scale=False),
+                      mean_factory=lambda resource: ScalarMeanFunction(), resource_attr_range=rrange, random_seed=0)
+            if spec["model"] == "hypertune":
+                gm = HyperTuneIndependentGPModel(
+                    hypertune_distribution_args=HyperTuneDistributionArguments(num_samples=10, num_brackets=3), **kw)
+            else:
+                gm = IndependentGPPerResourceModel(**kw)
+            gm.create_likelihood(levels)
+            lik = gm.likelihood
+            lik.on_fit_start(data)
+            obj, param_dict = create_lbfgs_arguments(criterion=lik, crit_args=[data])
+            conv = ParamVecDictConverter(param_dict)
+            v0 = np.array(conv.to_vec(), dtype=float)
+            bounds = lik.box_constraints_internal()
+            v = v0 + rs.uniform(-0.7, 0.7, size=v0.shape)
+            names = []
+            for name in conv.names:
+                names.extend([name] * len(conv.name_to_index[name]))
+            for i, name in enumerate(names):
+                lo, hi = bounds.get(name, (None, None))
+                if lo is not None:
+                    v[i] = max(v[i], float(lo) + 0.2)
+                if hi is not None:
+                    v[i] = min(v[i], float(hi) - 0.2)
+                if "noise_variance" in name:
+                    v[i] = rs.uniform(-6.0, -1.0)
+
+            def val(vec):
+                return float(np.asarray(obj(np.array(vec, dtype=float))[0]).reshape(-1)[0])
+            f0, g = obj(v.copy())
+            f0, g = float(np.asarray(f0).reshape(-1)[0]), np.asarray(g, dtype=float).reshape(-1)
+            ctx.count(("fit_mf", spec), nontrivial=True)
+            ctx.h("fit_mf_model", spec["model"])
+            sig = dict(function="create_lbfgs_arguments objective", surrogate=spec["model"] + " GPs per rung level")
+            for i, name in enumerate(names):
+                def f(t):
+                    vv = v.copy()
+                    vv[i] = t
+                    return val(vv)
+                fd, fd_err, ok = fd_estimate(f, float(v[i]), 1e-3 * max(1.0, abs(v[i])), floor=1e-9 * max(1.0, abs(f0)))
+                if not ok:
+                    ctx.h("fit_mf_fd", "inconclusive")
+                    continue
+                ctx.h("fit_mf_fd", "checked")
+                if not abs(fd - g[i]) <= 1e-5 * max(1.0, abs(g[i]), abs(fd), abs(f0)) + 20.0 * fd_err:
+                    ctx.violation("property", "fitting objective (%s GPs per rung level): gradient[%d] (%s) = %r but central "
+                                  "differences of the objective value give %r" % (spec["model"], i, name, float(g[i]), fd),
+                                  case=case, signature=dict(sig, defect="parameter_gradient",
+                                                            parameter="".join(ch for ch in name.split("_", 1)[-1] if not ch.isdigit())))
+
+
 def check_objective_call_sequences(ctx, make_objective, v, rs, case):
     """The scipy objective is a function of the VALUES in the array it is handed: sequences of calls on one buffer
     mutated in place between calls (gradient-descent style), repeated calls at one point, and two alternating
@@ -1561,7 +1673,9 @@ def run(ctx, replay=None):
                 "differences (step 1e-4, wider than the branch); both parameter encodings (logarithm, positive/softrelu) with "
                 "parameters exactly ON their bounds, checked with one-sided differences pointing into the box; call sequences "
                 "of the objective on one buffer mutated in place / repeated / alternating buffers vs fresh evaluations; "
-                "both settings of the verbose switch; (c3) EI / LCB on independent GPs per rung level with batches of 3..7 inputs at "
+                "both settings of the verbose switch; the fitting objectives of the one-GP-per-rung-level marginal likelihoods "
+                "(independent and HyperTune); fit A -> acquisition function -> same estimator fit again -> fit-A acquisition "
+                "function asked again; (c3) EI / LCB on independent GPs per rung level with batches of 3..7 inputs at "
                 "mixed, ungrouped rung levels, batch rows vs single-input calls vs closed form; (c2) EI and LCB on HyperTune independent-GP surrogates with ensemble distributions on 1, 2, 3 rung levels. "
                 "Non-trivial = a head case with more than "
                 "one fantasy column or a second output model; a Cholesky case with n >= 2; a GP case with pending "
@@ -1588,6 +1702,8 @@ def run(ctx, replay=None):
             run_hypertune(ctx, [replay["spec"]])
         elif kind == "indep":
             run_indep(ctx, [replay["spec"]])
+        elif kind == "fit_mf":
+            run_fit_multifidelity(ctx, [replay["spec"]])
         return
     n_head = ctx.n(250, 2500)
     specs = [gen_head_spec(rng, head) for head in ("ei", "lcb", "eipu", "cei") for _ in range(n_head)]
@@ -1602,3 +1718,4 @@ def run(ctx, replay=None):
     run_indep(ctx, [gen_indep_spec(rng, k) for k in range(ctx.n(30, 500))])
     run_linear_explicit(ctx, [gen_linear_spec(rng) for _ in range(ctx.n(150, 2000))])
     run_fit_objective(ctx, [gen_fit_spec(rng, k) for k in range(ctx.n(80, 600))])
+    run_fit_multifidelity(ctx, [gen_fit_mf_spec(rng, k) for k in range(ctx.n(16, 200))])
